@@ -48,10 +48,14 @@ def user_header(inp):
     """declarations of the wrapped functions, derived from the decl lines (attributes removed)"""
     lines = ["#ifndef GEN_H", "#define GEN_H"]
     cxx = inp.get("language", "c++") != "c"
-    if cxx:
+    if inp.get("bare_header"):
+        pass        # a user header without any standard include: the generated files must bring what THEY use
+    elif cxx:
         lines += ["#include <cstddef>", "#include <string>", "#include <vector>"]
     else:
         lines += ["#include <stddef.h>", "#include <stdbool.h>"]
+    if any(re.search(r'\bu?int\d+_t\b', d) for d in inp["decls"]):
+        lines.append("#include <cstdint>" if cxx else "#include <stdint.h>")
     for pre in inp.get("pre", []):
         m = re.search(r'decl:\s*struct\s+(\w+)\s*\{(.*?)\};', pre)
         if m:
@@ -145,7 +149,8 @@ def check(inp):
             if n.startswith(("py", "lua")) or n == "setup.py":
                 continue
             if n.endswith((".c", ".cpp")):
-                cmd = ["g++", "-std=c++11"] if n.endswith(".cpp") else ["gcc", "-std=c99"]
+                std = "-std=c++98" if str((inp.get("options") or {}).get("CXX_standard", "2011")) < "2011" else "-std=c++11"
+                cmd = ["g++", std] if n.endswith(".cpp") else ["gcc", "-std=c99"]
                 rc, text = run(cmd + ["-fsyntax-only", "-I.", n], out)
                 if rc != 0:
                     err = [l for l in text.split("\n") if "error" in l][:3]
@@ -192,6 +197,10 @@ CORE = [
     "void f%d(int (*cb)(int))", "void f%d(void (*cb)(double *x +intent(in)))",
     "void f%d(int a, double b = 1.5)", "void f%d(int a = 0, int b = 1)", "int f%d(int a) +pure",
     "void f%d(int *a +intent(in)+value)" ,
+    # fixed-width element types reached only through a container / a pointer; callbacks returning pointers
+    "void f%d(const std::vector<int64_t> &v)", "void f%d(std::vector<int64_t> &v +intent(out))",
+    "void f%d(const std::vector<uint16_t> &v)", "void f%d(int64_t *a +intent(out))", "int32_t f%d(uint8_t a)",
+    "void f%d(const char * (*name)(int i))", "void f%d(double * (*next)(int i))", "void f%d(int * (*get)(void))", "void f%d(double (*get)(int i), int n)",
 ]
 
 
@@ -216,6 +225,21 @@ def core(skip=()):
            "header": "namespace outer { const std::string& name(); void fill(std::vector<int> &v);\n"
                      "  namespace inner { std::vector<double> grid(); } }",
            "decls": ["int top(int a)"], "language": "c++", "options": {}}
+    # functions of a namespace (own Fortran module) that take / return a class of the enclosing scope
+    yield {"pre": ["- decl: class Shape\n  declarations:\n  - decl: Shape()\n  - decl: ~Shape()\n  - decl: int area()\n"
+                   "- decl: namespace tools\n  declarations:\n  - decl: int measure(Shape *s)\n  - decl: Shape *make()\n"
+                   "  - decl: void both(const Shape &a, Shape &b)\n"],
+           "header": "class Shape { public: Shape(); ~Shape(); int area(); }; namespace tools { int measure(Shape *s); Shape *make(); "
+                     "void both(const Shape &a, Shape &b); }",
+           "decls": ["int top(int a)"], "language": "c++", "options": {}}
+    # older C++ standards (NULL instead of nullptr) with a user header that includes nothing
+    for std in ("2003", "2011"):
+        yield {"pre": ["- decl: class Box\n  declarations:\n  - decl: Box()\n  - decl: ~Box()\n  - decl: int size() const\n"
+                       "  - decl: Box *clone() +owner(caller)\n  - decl: void merge(const Box &other)\n"
+                       "  - decl: static Box make(int n)\n  - decl: Box &self()\n"],
+               "decls": ["int top(int a)"], "language": "c++", "options": {"CXX_standard": std}, "bare_header": True}
+        yield {"decls": ["int top(int a)", "int *mk() +owner(caller)"], "language": "c++", "options": {"CXX_standard": std},
+               "bare_header": True}
     for lang in ("c", "c++"):
         yield {"pre": ["- decl: struct Pt { int x; double y; };"],
                "decls": ["void st(Pt p)", "void stp(Pt *p +intent(inout))", "Pt mk()", "Pt *mkp()",
